@@ -408,7 +408,7 @@ class C02(C.Check):
         for kl in O.MODELLED:
             out += [(kl, per_m)]
         for kl in O.ORACLE_ONLY:
-            out += [(kl, per_o)]
+            out += [(kl, getattr(kl, "quick_n", per_o) if ctx.quick else getattr(kl, "thorough_n", per_o))]
         return out
 
     def coq_case(self, kl, o):
